@@ -40,6 +40,9 @@ def op(name, *args):
                     c *= v
                 if c == 0:
                     return I(0)
+                # distribute a constant factor over a sum so that differences normalise:  -1*(a + k)  →  -a - k
+                if len(rest) == 1 and rest[0][0] == 'op' and rest[0][1] == '+':
+                    return op('+', *[op('*', I(c), t) for t in rest[0][2]])
                 if c != 1 or not rest:
                     rest.append(I(c))
             elif name == '|':
